@@ -358,6 +358,40 @@ CHECKS["C20"] = dict(
 
 NOT_YET = {}
 
+# ---- additions of the third session (appended to the entries above at generation time) ----
+EXTRA = {
+ "C12": dict(
+  text=" TemporalClient.tla (temporal log of 1..3 contiguous shards, each with its own key, NotAfter window from common/Temporal.tla and its own adversarial server; AddChain/AddPreChain route by the first element's NotAfter to exactly one shard's LogClient, GetAcceptedRoots fans out and merges in completion order) is model-checked exhaustively (RoutedToOneShard, OnlyVerifiedSCT per routed shard - an SCT valid for a neighbouring shard is refused -, RootsUnion/RootsTerminate, NoCrossTalk/PausesAreLocal, ErrorsCarryResponse, NoPartialResults); every exported routing case, server-class case, submission sequence and roots schedule is replayed into a real client.NewTemporalLogClient under testing/synctest through a RoundTripper routing by host to scripted per-shard servers with real keys and chains at, before and after every shard boundary; gate-controlled completion orders for the fan-out.",
+  note=" Temporal client: bounds and instants on whole seconds (sub-second bounds are C18's); named clauses LaxFirstElement and FanOut; order of returned roots and which failed shard's error comes back are not asserted.",
+  technique="; shard-list x instant x server-class case export for the temporal client, gate-controlled completion-order replay and virtual-time pacing comparison (go1.26 synctest), TLC liveness for fan-out termination"),
+ "C14": dict(
+  text=" The storage layer of ChainStore.tla is parameterised by Dialect (memory / mysql / postgresql: de-duplication by rewrite, by swallowed duplicate-key error 1062, by ON CONFLICT DO NOTHING; hard and soft storage error classes) with DedupIsSuccess, FirstAddInserts, AddErrorIs5xx, FindErrorIs5xx, MissingRowIsError, SoftFaultInvisible checked for every dialect; behaviours are replayed with the repository's REAL MySQL and PostgreSQL IssuanceChainStorage (hook H5) on an in-process database/sql driver (harness/sqlfake: dialect placeholders, primary key, the drivers' own error values, per-statement fault injection incl. real context cancellation and driver.ErrBadConn), comparing every storage-layer answer and the database's de-duplication path step by step.",
+  note=" SQL servers are replaced by harness/sqlfake (a statement interpreter for the statements each implementation sends; database/sql itself is real): wire protocol, driver encoders and server transactions are out of scope.",
+  technique="; the real SQL storage implementations replayed on an in-process database/sql driver with statement-level fault injection"),
+ "C15": dict(
+  note=" NotAfter bounds are (seconds, nanos) rank pairs with out-of-range classes for both components; all 961 windows are swept over every base configuration and replayed in four monotone concrete spellings (adjacent values, ends of the timestamp range, around the half second, around the int64-nanosecond horizon); merge delays in five int32 scales; named clause ValidatedCarriesWindow (an accepted configuration carries its bounds to the nanosecond)."),
+ "C16": dict(
+  text=" ScannerFanout.tla: case analysis of complete scans whose outcome does not depend on scheduling (tree <= 24, batch 1..16, reply policies full / cap k / align k / half, 1..4 fetchers, 1..6 matcher workers, channel capacity 0..16, six matchers, PrecertOnly); TLC checks partition and fan-out laws on every case and exports a deterministic cover of (batch length x matcher workers x capacity) classes plus seeded random cases; each runs through the real Scanner.Scan / Fetcher.Run on the log content the specification prescribes and the callbacks must equal the specification's.",
+  technique="; TLA+ case-analysis spec of the scanner fan-out with class-cover export and replay of every case"),
+ "C19": dict(
+  text=" Requests carry a spelling of the log id (configured, trailing bits, CR/LF, unpadded, URL-safe, blank; named clause AliasIsUnknown) and a storage fault (COMMIT fails, INSERT fails, all statements fail, cancelled context); the exhaustive check covers all reachable states x requests x spellings x faults (CosignedHeld, CosignedForward, FaultedStoreRefused, OneHistoryPerLog); faults are injected for real through a second sqlite connection holding SHARED / RESERVED / EXCLUSIVE locks, in replay per request and in concurrent traces as logged fault windows; an independent monitor judges stored rows and cosigned replies per decoded 32-byte log id.",
+  note=" Faults limited to what a second sqlite connection or a pre-cancelled context can cause (rollback-journal mode, _busy_timeout=0); named clauses AliasIsUnknown and StorageErrorIsError.",
+  technique="; storage-fault actions and id-spelling dimension with real lock-fault injection; oracle-free per-identity history monitor"),
+ "C13": dict(
+  note=" All three HTTP-date forms (IMF-fixdate, RFC 850, asctime) are materializations of rak=date; a runaway guard ends a submission after 3000 requests (reported as runaway-retries)."),
+ "C09": dict(
+  note=" Reused-destination law: every successful decode is repeated into a destination that holds another value of the type."),
+ "C08": dict(
+  note=" Body classes of the submission endpoints include a complete admissible JSON object followed by other non-blank bytes (jsonThenGarbage, jsonTwice)."),
+ "C01": dict(
+  note=" EntryShapes.tla adds the position of the poison extension (last / directly before the authority key identifier / first) for direct and pre-issuer precertificates."),
+ "C11": dict(
+  note=" Degenerate-payload mutations (empty BIT STRING, empty SEQUENCEs, emptied extnValue, empty RDN / attribute value) are 'free' cases: any coherent outcome, no panic."),
+}
+for _pid, _e in EXTRA.items():
+    for _k, _v in _e.items():
+        CHECKS[_pid][_k] = CHECKS[_pid][_k] + _v
+
 def main():
     props = [json.loads(l) for l in open(os.path.join(VERIF, "properties.jsonl"))]
     checks, na = [], []
